@@ -81,72 +81,16 @@ Print Assumptions C09_no_child_silently_lost_seq.
 Example C09_refuted_strip : strip (cp " a ") = cp "a" /\ xsd_valid xsd_st 8 "xs:string" (cp " a ") = true.
 Proof. vm_compute. auto. Qed.
 
-(* ---- whole documents (element structure, any depth): Model/Doc.v instantiated with today's tables ---- *)
-From MX Require Import Model.SeqIds Model.Doc.
-Definition strip_anon (s:string) : string := if String.prefix "<anon>" s then String.substring 6 (String.length s - 6) s else s.
-Definition elem_row (tag:positive) : option (string * option particle * option particle) :=
-  match find (fun p => Pos.eqb (fst p) tag) sym_table with None => None | Some (_, n) =>
-  match find (fun p => String.eqb (fst p) n) xsd_elements with None => None | Some (_, ty) =>
-  match find (fun r => String.eqb (fst (fst r)) (strip_anon ty)) cm_rows with Some r => Some r | None => Some (ty, None, None) end end end.
-(* the template the parser's element gets: the library template of the element's type when it is of the sequence class; no children for
-   elements of simple / empty types *)
-Definition elem_tpl (tag:positive) : option stree :=
-  match elem_row tag with
-  | Some (_, Some x, Some l) => if Classes.is_seq l then stree_of l else None
-  | Some (_, None, None) => Some (SNode false [])
-  | _ => None end.
-(* what the SCHEMA allows below the element *)
-Definition elem_schema_re (tag:positive) : re := match elem_row tag with Some (_, Some x, _) => re_of x | _ => Eps end.
-Fixpoint schema_valid (d:xdoc) : Prop :=
-  match d with XNode tag kids =>
-    (elem_tpl tag <> None /\ Lang (elem_schema_re tag) (map tag_of kids))
-    /\ (fix all (l:list xdoc) : Prop := match l with [] => True | k :: r => schema_valid k /\ all r end) kids end.
-Lemma elem_tpl_sound tag t : elem_tpl tag = Some t -> wf_t t = true /\ NoDup (alpha_t t) /\ forall w, Lang (elem_schema_re tag) w -> Lang (re_of_s t) w.
-Proof.
-  unfold elem_tpl, elem_schema_re, elem_row.
-  destruct (find (fun p => Pos.eqb (fst p) tag) sym_table) as [[? n]|]; [|discriminate].
-  destruct (find (fun p => String.eqb (fst p) n) xsd_elements) as [[? ty]|]; [|discriminate].
-  destruct (find (fun r => String.eqb (fst (fst r)) (strip_anon ty)) cm_rows) as [[[key xp] lt]|] eqn:F.
-  - apply find_some in F as [I _]. destruct xp as [x|], lt as [l|]; try discriminate.
-    + destruct (Classes.is_seq l) eqn:S; [|discriminate]. intros St. destruct (is_seq_parts l S) as (t' & St' & W & ND). rewrite St in St'. injection St' as <-.
-      repeat split; auto. intros w L. apply (stree_of_lang l t St). apply (proj1 (cm_row_sound key x l (forallb_In _ _ _ cm_rows_ok9 I))). exact L.
-    + intros E. injection E as <-. repeat split; simpl; auto. constructor.
-  - intros E. injection E as <-. repeat split; simpl; auto. constructor.
-Qed.
-Lemma schema_valid_valid : forall d, schema_valid d -> valid elem_tpl d.
-Proof.
-  induction d using xdoc_ind2. intros [[T L] VK]. simpl. split.
-  - destruct (elem_tpl t) as [st|] eqn:E; [|contradiction]. destruct (elem_tpl_sound t st E) as (W & ND & Sound). exists st. repeat split; auto.
-  - clear -H VK. induction H as [|x r Hx Hr IH]; simpl; auto. destruct VK as [Vx Vr]. split; [apply Hx; exact Vx|apply IH; exact Vr].
-Qed.
+(* ---- whole documents (element structure, any depth): Model/Doc.v instantiated with today's tables (Model/DocTables.v) ---- *)
+From MX Require Import Model.SeqIds Model.Doc Model.DocTables.
 (* every document, of any depth, whose every element has a type of the sequence class (or no element content) and whose children at
    every node form a word of the SCHEMA's content model, is read by the parser, and serialising what was read gives back exactly that
    document: same elements, same order, same nesting *)
 Theorem C09_document_structure : forall d, schema_valid d -> exists e, parse elem_tpl d = Some e /\ emit e = Some d.
-Proof. intros d V. apply doc_roundtrip. apply schema_valid_valid. exact V. Qed.
+Proof. intros d V. apply doc_roundtrip. apply (schema_valid_valid (fun r I => forallb_In _ _ _ cm_rows_ok9 I)). exact V. Qed.
 Print Assumptions C09_document_structure.
-(* a boolean test for the premise, and a three-level example *)
-Fixpoint schema_validb (d:xdoc) : bool :=
-  match d with XNode tag kids =>
-    match elem_tpl tag with Some _ => true | None => false end && accepts (elem_schema_re tag) (map tag_of kids) && forallb schema_validb kids end.
-Lemma elem_schema_re_wf tag : wf (elem_schema_re tag) = true.
-Proof.
-  unfold elem_schema_re, elem_row.
-  destruct (find (fun p => Pos.eqb (fst p) tag) sym_table) as [[? n]|]; [|reflexivity].
-  destruct (find (fun p => String.eqb (fst p) n) xsd_elements) as [[? ty]|]; [|reflexivity].
-  destruct (find (fun r => String.eqb (fst (fst r)) (strip_anon ty)) cm_rows) as [[[key xp] lt]|] eqn:F; [|reflexivity].
-  apply find_some in F as [I _]. destruct xp as [x|]; [|reflexivity].
-  pose proof (forallb_In _ _ _ cm_rows_ok9 I) as R. unfold cm_row_ok in R. cbv beta iota in R. destruct lt as [l|]; [|discriminate].
-  apply andb_true_iff in R as [R _]. apply andb_true_iff in R as [_ R]. exact R.
-Qed.
-Lemma schema_validb_sound : forall d, schema_validb d = true -> schema_valid d.
-Proof.
-  induction d using xdoc_ind2. simpl. intros B. apply andb_true_iff in B as [B K]. apply andb_true_iff in B as [T A]. split.
-  - split; [destruct (elem_tpl t); [discriminate|discriminate]|apply accepts_iff; [apply elem_schema_re_wf|exact A]].
-  - clear -H K. induction H as [|x r Hx Hr IH]; simpl in *; auto. apply andb_true_iff in K as [K1 K2]. split; [apply Hx; exact K1|apply IH; exact K2].
-Qed.
 Example C09_document_example :
   let d := XNode s_defaults [XNode s_scaling [XNode s_millimeters []; XNode s_tenths []];
                              XNode s_page_layout [XNode s_page_height []; XNode s_page_width []; XNode s_page_margins [XNode s_left_margin []; XNode s_right_margin []; XNode s_top_margin []; XNode s_bottom_margin []]]] in
   schema_validb d = true /\ exists e, parse elem_tpl d = Some e /\ emit e = Some d.
-Proof. split; [vm_compute; reflexivity|]. apply C09_document_structure. apply schema_validb_sound. vm_compute. reflexivity. Qed.
+Proof. split; [vm_compute; reflexivity|]. apply C09_document_structure. apply (schema_validb_sound (fun r I => forallb_In _ _ _ cm_rows_ok9 I)). vm_compute. reflexivity. Qed.
